@@ -54,7 +54,7 @@ MUTANTS = [
 
 async def""", """        try:
             _ = futures[future_id].result()  # raise exception by calling the future
-        except Exception:
+        except BaseException:
             pass
         logger.debug("Remove ExecNode {} from the graph", future_id)
         runnable_xns_ids |= graph.remove_root_node(future_id)
@@ -94,9 +94,17 @@ async def""", ["C14"], "failed thread future is swallowed"),
      "sequential drain ignores async-thread nodes in flight"),
     ("m16_guard_off_by_one", H, "if running_threads() == max_concurrency or", "if running_threads() == max_concurrency + 1 or", ["C04"],
      "concurrency guard off by one"),
+    ("r01_revert_P1", "revert", "80d0cb2", "", ["C07", "C06"], "revert fix: compound priority per path"),
+    ("r02_revert_D6", "revert", "31dcaba", "", ["C07", "C06", "C13"], "revert fix: tables lost under selection"),
+    ("r03_revert_D4", "revert", "0e556e7", "", ["C10", "C01"], "revert fix: indexed activation flag"),
+    ("r04_revert_D12", "revert", "3129148", "", ["C10", "C01"], "revert fix: constant False on nested DAG"),
+    ("r05_revert_D8", "revert", "c368ba9", "", ["C20", "C01"], "revert fix: explicit argument vs default of nested DAG"),
     ("m17_active_whole_value", H, "return bool(xn.active.result(results))", "return bool(results[xn.active.id])", ["C10"],
      "activation ignores the key path (re-introduces D4)"),
 ]
+
+
+FIRST_ONLY = {"m08_swallow_failed_future"}
 
 
 def sh(cmd, **kw):
@@ -119,13 +127,25 @@ def main() -> int:
         try:
             dst = os.path.join(tmp, "repo")
             shutil.copytree("/repo", dst, ignore=shutil.ignore_patterns(".git", "__pycache__", "*.pdf", "documentation", "cov.info"))
-            p = os.path.join(dst, f)
-            s = open(p).read()
-            if s.count(old) != 1:
+            if f == "revert":
+                diff = sh(["git", "-C", "/repo", "show", old]).stdout
+                r = subprocess.run(["patch", "-R", "-p1", "-s"], input=diff, text=True, cwd=dst, capture_output=True)
+                if r.returncode != 0:
+                    rows.append((name, "NOT-APPLICABLE", "revert failed: " + r.stdout[-200:], "", note))
+                    print(name, "revert failed", r.stdout[-300:])
+                    continue
+                s = old = new = ""
+                p = os.path.join(dst, "tawazi/__init__.py")
+                s = open(p).read()
+                old, new = s, s
+            else:
+                p = os.path.join(dst, f)
+                s = open(p).read()
+            if s.count(old) != 1 and name not in FIRST_ONLY:
                 rows.append((name, "NOT-APPLICABLE", f"pattern found {s.count(old)}x", "", note))
                 print(name, "pattern not found exactly once; skipped")
                 continue
-            open(p, "w").write(s.replace(old, new))
+            open(p, "w").write(s.replace(old, new, 1))
             suite = ""
             if a.suite:
                 r = sh(["/venv/bin/python", "-m", "pytest", "-q", "-x", "-p", "no:cacheprovider", "--no-cov", "--timeout=300",
